@@ -72,3 +72,19 @@ pub open spec fn prover_d1_ok(st: RangeStatement<P>, w: RangeWitness, pr: RangeP
     &&& ch.2.len() == pr.li@.len()
     &&& (st.seed_nonce is Some ==> forall|k: int| 0 <= k < ext ==> #[trigger] pr.d1@[k] == d1_spec(st.seed_nonce->Some_0, openings_r(w), ch, nm, m, ext, k))
 }
+pub open spec fn compress_seq(v: Seq<P>) -> Seq<CP> { Seq::new(v.len(), |q: int| p_compress(v[q])) }
+// the prover's transcript after `round` folding rounds: log and round challenges are the specified functions of the L/R messages so far
+#[verifier::opaque]
+pub open spec fn prover_tr_ok(l2: Seq<TEvent>, li: Seq<P>, ri: Seq<P>, e_log: Seq<Scalar>, tlog: Seq<TEvent>, round: nat) -> bool {
+    &&& li.len() == round && ri.len() == round && e_log.len() == round
+    &&& tlog == log_rounds(l2, compress_seq(li), compress_seq(ri), round)
+    &&& forall|t: int| 0 <= t < round ==> #[trigger] e_log[t] == round_chal(l2, compress_seq(li), compress_seq(ri), t as nat) && e_log[t] != Scalar::ZERO
+}
+// alpha_rounds reads only column k of the first t rows of the nonce logs
+pub proof fn lemma_alpha_rounds_ext(a: Scalar, dl1: Seq<Seq<Scalar>>, dr1: Seq<Seq<Scalar>>, dl2: Seq<Seq<Scalar>>, dr2: Seq<Seq<Scalar>>, es: Seq<Scalar>, k: int, t: nat)
+    requires forall|q: int| 0 <= q < t ==> #[trigger] dl1[q][k] == dl2[q][k] && dr1[q][k] == dr2[q][k]
+    ensures alpha_rounds(a, dl1, dr1, es, k, t) == alpha_rounds(a, dl2, dr2, es, k, t)
+    decreases t
+{
+    if t > 0 { lemma_alpha_rounds_ext(a, dl1, dr1, dl2, dr2, es, k, (t - 1) as nat); }
+}
